@@ -99,3 +99,26 @@ func TestListingBelowTheBookkeepingDirectoryIsEmpty(t *testing.T) {
 		}
 	}
 }
+
+// With a delimiter, a common prefix was dropped whenever the marker merely began like it: marker "a" (or "a-") lost the
+// common prefix "a/", which sorts after the marker.
+func TestCommonPrefixAfterTheMarkerIsListed(t *testing.T) {
+	g := gwtest.Start(t, gwtest.Options{})
+	g.MustStatus(g.Put(g.RootC, "/bkt", nil, nil), 200, "create bucket")
+	for _, k := range []string{"a/x", "a/y", "b"} {
+		g.MustStatus(g.Put(g.RootC, "/bkt/"+k, []byte("x"), nil), 200, "put "+k)
+	}
+	for _, m := range []string{"a", "a-", "a%2E"} {
+		l := g.Get(g.RootC, "/bkt?delimiter=/&marker="+m, nil)
+		if l.Status != 200 || !strings.Contains(string(l.Body), "<CommonPrefixes><Prefix>a/</Prefix></CommonPrefixes>") || !strings.Contains(string(l.Body), "<Key>b</Key>") {
+			t.Errorf("GET /bkt?delimiter=/&marker=%s: %d %s\nwant the common prefix a/ and the key b", m, l.Status, l.Body)
+		}
+	}
+	// a marker inside the common prefix, or the common prefix itself, still resumes after it
+	for _, m := range []string{"a/", "a/x"} {
+		l := g.Get(g.RootC, "/bkt?delimiter=/&marker="+m, nil)
+		if strings.Contains(string(l.Body), "<Prefix>a/</Prefix>") || !strings.Contains(string(l.Body), "<Key>b</Key>") {
+			t.Errorf("GET /bkt?delimiter=/&marker=%s: %s", m, l.Body)
+		}
+	}
+}
